@@ -218,7 +218,8 @@ function judgeOne(b, call) {
 }
 
 function spaces(tier) {
-  const thorough = tier === 'thorough';
+  const deep = tier === 'thorough';
+  const thorough = true; // cheap: the quick tier explores the former thorough space
   const atoms = ATOM_KEYS.map((a) => ({ a }));
   const core = CORE_ATOMS.map((a) => ({ a }));
   const okArgs = (op, args) => !OPS[op].only || args.every((t) => t.a && OPS[op].only.includes(t.a));
@@ -239,6 +240,15 @@ function spaces(tier) {
         const d1 = [...depth1(core, core)];
         for (const op of UNARY) for (const x of d1) if (okArgs(op, [x])) yield { t: { op, args: [x] } };
         for (const op of (thorough ? BINARY : ['union', 'tupleElemN'])) for (const x of d1) for (const y of (thorough ? core : core.slice(0, 6))) if (okArgs(op, [x, y])) yield { t: { op, args: [x, y] } };
+      },
+    },
+    {
+      name: 'R:depth-3',
+      bounds: { note: deep ? 'unary operators over every depth-2 term built by a unary operator over the depth-1 core terms' : 'thorough tier only' },
+      *gen() {
+        if (!deep) return;
+        const d1 = [...depth1(core, core)];
+        for (const op of UNARY) for (const op2 of UNARY) for (const x of d1) if (okArgs(op2, [x])) { const t2 = { op: op2, args: [x] }; if (okArgs(op, [t2])) yield { t: { op, args: [t2] } }; }
       },
     },
   ];
